@@ -13,6 +13,7 @@ use crate::grammar::parse_tree::{
     Alternative, ExprSymbol, Grammar, GrammarItem, NonterminalData, NonterminalString, Symbol,
     SymbolKind,
 };
+use std::collections::{HashMap, HashSet};
 use std::fmt;
 use std::str::FromStr;
 use string_cache::DefaultAtom as Atom;
@@ -131,9 +132,22 @@ pub fn expand_precedence(input: Grammar) -> NormResult<Grammar> {
     let input = resolve::resolve(input)?;
     let mut result: Vec<GrammarItem> = Vec::with_capacity(input.items.len());
 
+    // Names of all the nonterminals declared by the user: the names generated for the
+    // intermediate precedence levels must not clash with any of them.
+    let mut used_names: HashSet<NonterminalString> = input
+        .items
+        .iter()
+        .filter_map(|item| match item {
+            GrammarItem::Nonterminal(d) => Some(d.name.clone()),
+            _ => None,
+        })
+        .collect();
+
     for item in input.items.into_iter() {
         match item {
-            GrammarItem::Nonterminal(d) if has_prec_attr(&d) => result.extend(expand_nonterm(d)?),
+            GrammarItem::Nonterminal(d) if has_prec_attr(&d) => {
+                result.extend(expand_nonterm(d, &mut used_names)?)
+            }
             item => result.push(item),
         };
     }
@@ -161,7 +175,10 @@ pub fn has_prec_attr(non_term: &NonterminalData) -> bool {
 
 /// Expand a rule with precedence attributes. As it implies to generate new rules, return a vector
 /// of grammar items.
-fn expand_nonterm(mut nonterm: NonterminalData) -> NormResult<Vec<GrammarItem>> {
+fn expand_nonterm(
+    mut nonterm: NonterminalData,
+    used_names: &mut HashSet<NonterminalString>,
+) -> NormResult<Vec<GrammarItem>> {
     let mut lvls: Vec<u32> = Vec::new();
     let mut alts_with_attr: Vec<(u32, Assoc, Alternative)> =
         Vec::with_capacity(nonterm.alternatives.len());
@@ -216,27 +233,38 @@ fn expand_nonterm(mut nonterm: NonterminalData) -> NormResult<Vec<GrammarItem>> 
     let rest = &mut alts_with_attr.into_iter();
 
     let lvl_max = *lvls.last().unwrap();
+
+    // The generated non terminal corresponding to the last level keeps the same name as the
+    // initial item, so that all external references to it are still valid. Other levels get
+    // the names `Name1`, `Name2`, etc. where `Name` is the name of the initial item (followed by
+    // as many `_` as needed to avoid a clash with a nonterminal that already has that name).
+    let lvl_names: HashMap<u32, NonterminalString> = lvls
+        .iter()
+        .map(|lvl| {
+            let name = if *lvl == lvl_max {
+                nonterm.name.clone()
+            } else {
+                let mut candidate = format!("{}{}", nonterm.name, lvl);
+                while used_names.contains(&NonterminalString(Atom::from(candidate.as_str()))) {
+                    candidate.push('_');
+                }
+                let name = NonterminalString(Atom::from(candidate));
+                used_names.insert(name.clone());
+                name
+            };
+            (*lvl, name)
+        })
+        .collect();
     // Iterate on pairs (lvls[i], lvls[i+1])
     let result = Some(None)
         .into_iter()
         .chain(lvls.iter().map(Some))
         .zip(lvls.iter())
         .map(|(lvl_prec_opt, lvl)| {
-            // The generated non terminal corresponding to the last level keeps the same name as the
-            // initial item, so that all external references to it are still valid. Other levels get
-            // the names `Name1`, `Name2`, etc. where `Name` is the name of the initial item.
-            let name = NonterminalString(Atom::from(if *lvl == lvl_max {
-                format!("{}", nonterm.name)
-            } else {
-                format!("{}{}", nonterm.name, lvl)
-            }));
+            let name = lvl_names[lvl].clone();
 
-            let nonterm_prev = lvl_prec_opt.map(|lvl_prec| {
-                SymbolKind::Nonterminal(NonterminalString(Atom::from(format!(
-                    "{}{}",
-                    nonterm.name, lvl_prec
-                ))))
-            });
+            let nonterm_prev =
+                lvl_prec_opt.map(|lvl_prec| SymbolKind::Nonterminal(lvl_names[lvl_prec].clone()));
 
             let (alts_with_prec, new_rest): (Vec<_>, Vec<_>) =
                 rest.partition(|(l, _, _)| *l == *lvl);
